@@ -565,7 +565,7 @@ class ParSer(OnePort):
                 return Vdc(arg1.v0 + arg2.v0)
             # Could simplify Vac here if same frequency
             if isinstance(arg1, V):
-                return V(arg1 + arg2)
+                return V(arg1.Voc + arg2.Voc)
             if isinstance(arg1, R):
                 return R(arg1._R + arg2._R)
             if isinstance(arg1, L):
@@ -589,7 +589,7 @@ class ParSer(OnePort):
                 return Idc(arg1.i0 + arg2.i0)
             # Could simplify Iac here if same frequency
             if isinstance(arg1, I):
-                return I(arg1 + arg2)
+                return I(arg1.Isc + arg2.Isc)
             if isinstance(arg1, G):
                 return G(arg1._G + arg2._G)
             if isinstance(arg1, C):
@@ -764,6 +764,9 @@ class ParSer(OnePort):
 
         for arg in self.args:
             if arg.has_independent_source:
+                return True
+            # Non-zero initial conditions act as independent sources
+            if getattr(arg, 'has_ic', False) and not getattr(arg, 'zeroic', True):
                 return True
         return False
 
@@ -2282,7 +2285,7 @@ class FerriteBead(OnePort):
 
     def expand(self):
 
-        return R(self.Rs) + (R(self.Rp) + L(self.Lp) + C(self.Cp))
+        return R(self.Rs) + (R(self.Rp) | L(self.Lp) | C(self.Cp))
 
     def _net_make(self, netlist, n1=None, n2=None, dir='right'):
 
